@@ -1304,3 +1304,524 @@ Proof.
   destruct Hok as [Hz|Hlt]; [contradiction|]. destruct (lam_request_ge c Hu) as (Hge & Hex).
   eexists. unfold is_pp_request. rewrite Hpt, key_eqb_refl. cbn [owner data lamports ar_fee]. repeat split; cbn [ar_fee lamports]; lia.
 Qed.
+
+(* ------------------------------------------------------------------------------------------------------------- *)
+(* 10. instruction frames and transactions (Exec.v)                                                                *)
+(* ------------------------------------------------------------------------------------------------------------- *)
+Definition pp_cx (ms : list meta) (h : N) (sib : option sibling) : ctx :=
+  {| cx_prog := KPassport; cx_metas := ms; cx_height := h; cx_sibling := sib |}.
+
+Lemma total_is_lamports_sum W ks : total W ks = lamports_sum W ks.
+Proof. reflexivity. Qed.
+Lemma existsb_key_in k l : existsb (key_eqb k) l = true <-> In k l.
+Proof. rewrite existsb_exists. split; [intros (x & Hi & He); apply key_eqb_eq in He; subst; assumption|].
+  intros Hi. exists k. rewrite key_eqb_refl. auto. Qed.
+Lemma dedup_keys_in l k : In k (dedup_keys l) <-> In k l.
+Proof.
+  induction l as [|a tl IH]; cbn [dedup_keys]; [tauto|]. destruct (existsb (key_eqb a) tl) eqn:E.
+  - rewrite IH. cbn. apply (proj1 (existsb_key_in _ _)) in E. split; [auto|]. intros [<-|H]; assumption.
+  - cbn. rewrite IH. tauto.
+Qed.
+Lemma dedup_keys_nodup l : NoDup (dedup_keys l).
+Proof.
+  induction l as [|a tl IH]; cbn [dedup_keys]; [constructor|]. destruct (existsb (key_eqb a) tl) eqn:E; [assumption|].
+  constructor; [|assumption]. rewrite dedup_keys_in. intros Hi. apply (proj2 (existsb_key_in _ _)) in Hi. congruence.
+Qed.
+Lemma nthk_in ms i : (i < length ms)%nat -> In (nthk ms i) (dedup_keys (keys_of ms)).
+Proof. intros H. apply dedup_keys_in. unfold nthk. apply nth_In. unfold keys_of. rewrite map_length. assumption. Qed.
+
+(* a passport instruction frame = the processor + the runtime's balance check over the instruction's accounts *)
+Lemma exec_data_passport ix ms h sib W W' :
+  exec_data KPassport (IxPassport ix) ms h sib W = Ok W' ->
+  pp_process (pp_cx ms h sib) W ix = Ok W' /\
+  total W' (dedup_keys (keys_of ms)) = total W (dedup_keys (keys_of ms)).
+Proof.
+  cbn [exec_data]. intros H. inv_all. ok_inj H. split; [exact Hm|]. unfold balanced in Hm0. cbn zeta in Hm0. keq.
+  symmetry. exact Hm0.
+Qed.
+Lemma exec_data_passport_only prog ix ms h sib W W' :
+  exec_data prog (IxPassport ix) ms h sib W = Ok W' -> prog = KPassport.
+Proof. destruct prog; cbn [exec_data bind]; intros H; try discriminate H. reflexivity. Qed.
+
+(* GrantAccess as an instruction frame: no saturation, exact amounts, conservation, request account emptied *)
+Lemma exec_grant_access ms h sib W W' :
+  exec_data KPassport (IxPassport PGrantAccess) ms h sib W = Ok W' ->
+  exists c r, is_pp_config W (nthk ms 0) c /\ is_pp_request W (nthk ms 2) r /\
+    let rk := nthk ms 2 in let s := pc_sentinel c in let b := ar_beneficiary r in
+    let bal := lamports (get W rk) in let fee := ar_fee r in
+    nthk ms 1 = s /\ nthk ms 3 = b /\ is_signer ms s = true /\ pc_paused c = false /\
+    fee <= bal /\ s <> rk /\ b <> rk /\
+    lamports (get W' rk) = 0 /\
+    (s <> b -> lamports (get W' s) = lamports (get W s) + fee /\ lamports (get W' b) = lamports (get W b) + (bal - fee)) /\
+    (s = b -> lamports (get W' s) = lamports (get W s) + bal) /\
+    (forall k, k <> rk -> k <> s -> k <> b -> get W' k = get W k) /\
+    (forall k, owner (get W' k) = owner (get W k) /\ alen (get W' k) = alen (get W k) /\ data (get W' k) = data (get W k)).
+Proof.
+  intros H. apply exec_data_passport in H. destruct H as (H & Hbal). cbn [pp_process] in H.
+  assert (Hok := pp_grant_access_ok _ _ _ H). assert (Hauth := pp_grant_access_authority _ _ _ H).
+  assert (Hacc := pp_grant_access_accounting _ _ _ _ H (dedup_keys_nodup (keys_of ms))).
+  apply pp_grant_access_amounts in H. cbn [pp_cx cx_metas] in *. cbn zeta in *.
+  destruct H as (c & r & Hc & Hr & Hn1 & Hn3 & Hz & Hs & Hb & Hsb & Hfr & Hmeta).
+  destruct Hok as (m0 & m1 & m2 & m3 & rest & c0 & r0 & Hms & _ & Hd0 & _ & Hk0 & Hp0 & _ & Hdr0 & Hb0 & _).
+  destruct Hauth as (c1 & (_ & Hd1) & _ & Hsig). destruct Hacc as (c2 & r2 & (_ & Hd2) & (_ & Hdr2) & Hacc).
+  destruct Hc as (Hco & Hcd). destruct Hr as (Hro & Hrd).
+  assert (c0 = c) by (rewrite Hms, nthk_0 in Hcd; congruence). assert (c1 = c) by congruence. assert (c2 = c) by congruence.
+  assert (r0 = r) by (rewrite Hms, nthk_2 in Hrd; congruence). assert (r2 = r) by congruence. subst c0 c1 c2 r0 r2.
+  assert (H1 : nthk ms 1 = pc_sentinel c) by (rewrite Hms, nthk_1; assumption).
+  assert (H3 : nthk ms 3 = ar_beneficiary r) by (rewrite Hms, nthk_3; assumption).
+  assert (Hlen : (4 <= length ms)%nat) by (rewrite Hms; cbn; lia).
+  assert (Hfee : ar_fee r <= lamports (get W (nthk ms 2))).
+  { specialize (Hacc (nthk_in ms 2 ltac:(lia))). rewrite <- H1, <- H3 in Hacc.
+    specialize (Hacc (nthk_in ms 1 ltac:(lia)) (nthk_in ms 3 ltac:(lia))). lia. }
+  exists c, r. split; [split; assumption|]. split; [split; assumption|].
+  repeat (split; [assumption|]). split; [auto|]. split; [|split; assumption].
+  intros E. rewrite (Hsb E). lia.
+Qed.
+
+Lemma exec_deny_access ms h sib W W' :
+  exec_data KPassport (IxPassport PDenyAccess) ms h sib W = Ok W' ->
+  exists c r, is_pp_config W (nthk ms 0) c /\ is_pp_request W (nthk ms 2) r /\
+    let rk := nthk ms 2 in let s := pc_sentinel c in
+    nthk ms 1 = s /\ is_signer ms s = true /\ pc_paused c = false /\ s <> rk /\
+    lamports (get W' rk) = 0 /\ lamports (get W' s) = lamports (get W s) + lamports (get W rk) /\
+    (forall k, k <> rk -> k <> s -> get W' k = get W k) /\
+    (forall k, owner (get W' k) = owner (get W k) /\ alen (get W' k) = alen (get W k) /\ data (get W' k) = data (get W k)).
+Proof.
+  intros H. apply exec_data_passport in H. destruct H as (H & _). cbn [pp_process] in H.
+  assert (Hok := pp_deny_access_ok _ _ _ H). assert (Hauth := pp_deny_access_authority _ _ _ H).
+  apply pp_deny_access_amounts in H. cbn [pp_cx cx_metas] in *. cbn zeta in *.
+  destruct H as (c & r & Hc & Hr & Hn1 & Hz & Hs & Hfr & Hmeta).
+  destruct Hok as (m0 & m1 & m2 & rest & c0 & r0 & Hms & _ & Hd0 & _ & Hk0 & Hp0 & _).
+  destruct Hauth as (c1 & (_ & Hd1) & _ & Hsig). destruct Hc as (Hco & Hcd).
+  assert (c0 = c) by (rewrite Hms, nthk_0 in Hcd; congruence). assert (c1 = c) by congruence. subst c0 c1.
+  assert (H1 : nthk ms 1 = pc_sentinel c) by (rewrite Hms, nthk_1; assumption).
+  exists c, r. split; [split; assumption|]. split; [assumption|]. auto 10.
+Qed.
+
+(* ---- transactions ---- *)
+Lemma tx_failed_unchanged W t W' : exec_tx W t = (W', false) -> W' = W.
+Proof.
+  unfold exec_tx. destruct (negb (tx_wf t)); [intros H; ok_inj H; reflexivity|].
+  destruct (exec_ixs t (tx_ixs t) None W); [destruct (rent_ok t W a)|]; intros H; try discriminate H; ok_inj H; reflexivity.
+Qed.
+Lemma tx_success_inv W t W' :
+  exec_tx W t = (W', true) ->
+  tx_wf t = true /\ exists W1, exec_ixs t (tx_ixs t) None W = Ok W1 /\ rent_ok t W W1 = true /\ W' = purge W1.
+Proof.
+  unfold exec_tx. destruct (tx_wf t); cbn [negb]; [|discriminate]. destruct (exec_ixs t (tx_ixs t) None W) as [W1|]; [|discriminate].
+  destruct (rent_ok t W W1) eqn:E; [|discriminate]. intros H. ok_inj H. eauto.
+Qed.
+Lemma tx_single_inv W t W' i :
+  exec_tx W t = (W', true) -> tx_ixs t = [i] ->
+  tx_wf t = true /\ exists W1, exec_data (i_prog i) (i_data i) (effective t (i_metas i)) 1 None W = Ok W1 /\ W' = purge W1.
+Proof.
+  intros H Hi. apply tx_success_inv in H. destruct H as (Hwf & W1 & He & _ & ->). rewrite Hi in He. cbn [exec_ixs] in He.
+  inv_all. ok_inj He. eauto.
+Qed.
+Lemma lamports_purge W k : lamports (get (purge W) k) = lamports (get W k).
+Proof. rewrite get_purge. destruct (lamports (get W k) =? 0) eqn:E; [keq; rewrite E|]; reflexivity. Qed.
+
+(* message-level privileges *)
+Lemma nthk_effective t ms i : nthk (effective t ms) i = nthk ms i.
+Proof. unfold nthk, keys_of, effective. rewrite map_map. reflexivity. Qed.
+Lemma is_signer_effective t ms k : is_signer (effective t ms) k = true -> In k (tx_signers t).
+Proof.
+  intros H. apply is_signer_in in H. destruct H as (m & Hi & Hk & Hs). unfold effective in Hi. apply in_map_iff in Hi.
+  destruct Hi as (m' & <- & _). cbn in Hk, Hs. subst k. unfold msg_signer in Hs. apply (proj1 (existsb_key_in _ _)) in Hs. exact Hs.
+Qed.
+
+(* C07 at instruction-frame level inside any transaction (any position, any world reached so far): a passport
+   instruction that needs an authority succeeds only if that authority's key signed the transaction *)
+Lemma exec_passport_authority t ms h sib W W' ix :
+  exec_data KPassport (IxPassport ix) (effective t ms) h sib W = Ok W' ->
+  match ix with
+  | PGrantAccess | PDenyAccess => exists c, is_pp_config W (nthk ms 0) c /\ In (pc_sentinel c) (tx_signers t)
+  | PConfigureProgram _ => exists c, is_pp_config W (nthk ms 0) c /\ In (pc_admin c) (tx_signers t)
+  | PSetAdmin _ => exists auth, data (get W (KProgData KPassport)) = DProgData (Some auth) /\ In auth (tx_signers t)
+  | PInitializeProgram | PRequestAccess _ => True
+  end.
+Proof.
+  intros H. apply exec_data_passport in H. destruct H as (H & _). destruct ix; cbn [pp_process] in H; try exact I.
+  - apply pp_set_admin_authority in H. destruct H as (auth & _ & Hd & _ & Hs). cbn [pp_cx cx_metas] in Hs. eauto using is_signer_effective.
+  - apply pp_configure_program_authority in H. destruct H as (c & Hc & _ & Hs). cbn [pp_cx cx_metas] in Hc, Hs. rewrite nthk_effective in Hc.
+    eauto using is_signer_effective.
+  - apply pp_grant_access_authority in H. destruct H as (c & Hc & _ & Hs). cbn [pp_cx cx_metas] in Hc, Hs. rewrite nthk_effective in Hc.
+    eauto using is_signer_effective.
+  - apply pp_deny_access_authority in H. destruct H as (c & Hc & _ & Hs). cbn [pp_cx cx_metas] in Hc, Hs. rewrite nthk_effective in Hc.
+    eauto using is_signer_effective.
+Qed.
+
+(* a transaction consisting of one passport instruction *)
+Definition pp_tx (t : tx) (ix : pp_ix) (ms : list meta) : Prop :=
+  tx_ixs t = [{| i_prog := KPassport; i_data := IxPassport ix; i_metas := ms |}].
+
+Lemma pp_tx_inv W t W' ix ms :
+  exec_tx W t = (W', true) -> pp_tx t ix ms ->
+  tx_wf t = true /\ exists W1, exec_data KPassport (IxPassport ix) (effective t ms) 1 None W = Ok W1 /\ W' = purge W1.
+Proof. intros H Hi. apply (tx_single_inv _ _ _ _ H) in Hi. exact Hi. Qed.
+
+(* C07, transaction level: no signature of the authority in the transaction, no effect *)
+Lemma tx_grant_needs_sentinel W t W' ms :
+  exec_tx W t = (W', true) -> pp_tx t PGrantAccess ms ->
+  exists c, is_pp_config W (nthk ms 0) c /\ In (pc_sentinel c) (tx_signers t).
+Proof. intros H Hi. destruct (pp_tx_inv _ _ _ _ _ H Hi) as (_ & W1 & He & _). exact (exec_passport_authority _ _ _ _ _ _ _ He). Qed.
+Lemma tx_deny_needs_sentinel W t W' ms :
+  exec_tx W t = (W', true) -> pp_tx t PDenyAccess ms ->
+  exists c, is_pp_config W (nthk ms 0) c /\ In (pc_sentinel c) (tx_signers t).
+Proof. intros H Hi. destruct (pp_tx_inv _ _ _ _ _ H Hi) as (_ & W1 & He & _). exact (exec_passport_authority _ _ _ _ _ _ _ He). Qed.
+Lemma tx_configure_needs_admin W t W' s ms :
+  exec_tx W t = (W', true) -> pp_tx t (PConfigureProgram s) ms ->
+  exists c, is_pp_config W (nthk ms 0) c /\ In (pc_admin c) (tx_signers t).
+Proof. intros H Hi. destruct (pp_tx_inv _ _ _ _ _ H Hi) as (_ & W1 & He & _). exact (exec_passport_authority _ _ _ _ _ _ _ He). Qed.
+Lemma tx_set_admin_needs_upgrade_authority W t W' a ms :
+  exec_tx W t = (W', true) -> pp_tx t (PSetAdmin a) ms ->
+  exists auth, data (get W (KProgData KPassport)) = DProgData (Some auth) /\ In auth (tx_signers t).
+Proof. intros H Hi. destruct (pp_tx_inv _ _ _ _ _ H Hi) as (_ & W1 & He & _). exact (exec_passport_authority _ _ _ _ _ _ _ He). Qed.
+Lemma tx_grant_unsigned_fails W t ms c :
+  pp_tx t PGrantAccess ms -> data (get W (nthk ms 0)) = DPpConfig c -> ~ In (pc_sentinel c) (tx_signers t) -> exec_tx W t = (W, false).
+Proof.
+  intros Hi Hd Hn. destruct (exec_tx W t) as (W', [|]) eqn:E; [exfalso|apply tx_failed_unchanged in E; subst; reflexivity].
+  destruct (tx_grant_needs_sentinel _ _ _ _ E Hi) as (c0 & (_ & Hd0) & Hs). assert (c0 = c) by congruence. subst. contradiction.
+Qed.
+
+(* C08, transaction level *)
+Lemma tx_paused_fails W t ix ms c :
+  pp_tx t ix ms -> data (get W (nthk ms 0)) = DPpConfig c ->
+  match ix with
+  | PRequestAccess _ => pc_paused c = true \/ pc_request_paused c = true
+  | PGrantAccess | PDenyAccess => pc_paused c = true
+  | _ => False
+  end -> exec_tx W t = (W, false).
+Proof.
+  intros Hi Hd Hp. destruct (exec_tx W t) as (W', [|]) eqn:E; [exfalso|apply tx_failed_unchanged in E; subst; reflexivity].
+  destruct (pp_tx_inv _ _ _ _ _ E Hi) as (_ & W1 & He & _). apply exec_data_passport in He. destruct He as (He & _).
+  rewrite <- (nthk_effective t) in Hd.
+  destruct ix; try contradiction; cbn [pp_process] in He.
+  - pose proof (pp_request_access_paused_fails (pp_cx (effective t ms) 1 None) W m c Hd Hp) as Hf. rewrite He in Hf. discriminate.
+  - pose proof (pp_grant_access_paused_fails (pp_cx (effective t ms) 1 None) W c Hd Hp) as Hf. rewrite He in Hf. discriminate.
+  - pose proof (pp_deny_access_paused_fails (pp_cx (effective t ms) 1 None) W c Hd Hp) as Hf. rewrite He in Hf. discriminate.
+Qed.
+
+(* C18, top level only: RequestAccess succeeds only at stack height 1; re-issued by another program (any nesting depth of
+   the harness' CPI relay) it always fails *)
+Lemma exec_request_height prog m ms h sib W W' :
+  exec_data prog (IxPassport (PRequestAccess m)) ms h sib W = Ok W' -> h = 1.
+Proof.
+  intros H. assert (prog = KPassport) by (eapply exec_data_passport_only; eassumption). subst.
+  apply exec_data_passport in H. destruct H as (H & _). cbn [pp_process] in H. apply pp_request_access_guards in H.
+  destruct H as (H & _). exact H.
+Qed.
+Lemma exec_rogue_cpi_inv prog inner ms h sib W W' :
+  exec_data prog (IxRogueCpi inner) ms h sib W = Ok W' ->
+  exists callee ms', exec_data callee inner ms' (h + 1) None W = Ok W'.
+Proof.
+  destruct prog; cbn [exec_data bind]; intros H; try discriminate H. inv_all. destruct ms as [|callee rest]; [discriminate|].
+  inv_all. ok_inj H. eauto.
+Qed.
+Fixpoint rogue_wrap (n : nat) (d : ixdata) : ixdata := match n with O => d | S n' => IxRogueCpi (rogue_wrap n' d) end.
+Lemma exec_wrapped_request_height n : forall prog m ms h sib W W',
+  exec_data prog (rogue_wrap n (IxPassport (PRequestAccess m))) ms h sib W = Ok W' -> h + N.of_nat n = 1.
+Proof.
+  induction n as [|n IH]; intros prog m ms h sib W W' H; cbn [rogue_wrap] in H.
+  - apply exec_request_height in H. lia.
+  - apply exec_rogue_cpi_inv in H. destruct H as (callee & ms' & H). apply IH in H. lia.
+Qed.
+Lemma request_via_cpi_fails n prog m ms h sib W :
+  h <> 0 -> is_ok (exec_data prog (rogue_wrap (S n) (IxPassport (PRequestAccess m))) ms h sib W) = false.
+Proof. intros Hh. apply not_ok_fails. intros W' H. apply exec_wrapped_request_height in H. lia. Qed.
+Lemma tx_request_via_cpi_fails W t n prog m ms :
+  tx_ixs t = [{| i_prog := prog; i_data := rogue_wrap (S n) (IxPassport (PRequestAccess m)); i_metas := ms |}] ->
+  exec_tx W t = (W, false).
+Proof.
+  intros Hi. destruct (exec_tx W t) as (W', [|]) eqn:E; [exfalso|apply tx_failed_unchanged in E; subst; reflexivity].
+  destruct (tx_single_inv _ _ _ _ E Hi) as (_ & W1 & He & _). cbn [i_prog i_data i_metas] in He.
+  apply exec_wrapped_request_height in He. lia.
+Qed.
+
+(* C17, transaction level: a successful GrantAccess transaction pays the sentinel exactly the remembered fee, returns the
+   entire remainder to the remembered requester, removes the request account, changes nobody else, conserves lamports *)
+Lemma tx_grant_access W t W' ms :
+  exec_tx W t = (W', true) -> pp_tx t PGrantAccess ms ->
+  exists c r, is_pp_config W (nthk ms 0) c /\ is_pp_request W (nthk ms 2) r /\
+    let rk := nthk ms 2 in let s := pc_sentinel c in let b := ar_beneficiary r in
+    let bal := lamports (get W rk) in let fee := ar_fee r in
+    nthk ms 1 = s /\ nthk ms 3 = b /\ In s (tx_signers t) /\ pc_paused c = false /\ fee <= bal /\ s <> rk /\ b <> rk /\
+    get W' rk = empty_acct /\
+    (s <> b -> lamports (get W' s) = lamports (get W s) + fee /\ lamports (get W' b) = lamports (get W b) + (bal - fee)) /\
+    (s = b -> lamports (get W' s) = lamports (get W s) + bal) /\
+    (forall k, k <> rk -> k <> s -> k <> b -> lamports (get W k) <> 0 -> get W' k = get W k) /\
+    (forall ks, NoDup ks -> In rk ks -> In s ks -> In b ks -> total W' ks = total W ks).
+Proof.
+  intros H Hi. destruct (pp_tx_inv _ _ _ _ _ H Hi) as (_ & W1 & He & ->).
+  assert (Hex := exec_grant_access _ _ _ _ _ He). cbn zeta in *. rewrite !nthk_effective in Hex.
+  destruct Hex as (c & r & Hc & Hr & H1 & H3 & Hsig & Hp & Hfee & Hn1 & Hn3 & Hz & Hsb & Hss & Hfr & Hmeta).
+  exists c, r. split; [assumption|]. split; [assumption|]. split; [assumption|]. split; [assumption|].
+  split; [eapply is_signer_effective; eassumption|]. split; [assumption|]. split; [assumption|]. split; [assumption|].
+  split; [assumption|]. split. { rewrite get_purge, Hz. reflexivity. }
+  split. { intros Hne. rewrite !lamports_purge. auto. } split. { intros E. rewrite lamports_purge. auto. }
+  split. { intros k Hk1 Hk2 Hk3 Hnz. rewrite get_purge, (Hfr k Hk1 Hk2 Hk3). destruct (lamports (get W k) =? 0) eqn:E; [keq; contradiction|reflexivity]. }
+  intros ks Hnd Hi1 Hi2 Hi3. apply exec_data_passport in He. destruct He as (He & _). cbn [pp_process] in He.
+  destruct (pp_grant_access_conserves _ _ _ ks He Hnd) as (c0 & r0 & (_ & Hd0) & (_ & Hdr0) & Hcons).
+  cbn [pp_cx cx_metas] in *. rewrite !nthk_effective in *. destruct Hc as (_ & Hcd). destruct Hr as (_ & Hrd).
+  assert (c0 = c) by congruence. assert (r0 = r) by congruence. subst c0 r0.
+  unfold total in *. erewrite map_ext; [apply Hcons; assumption|]. intros k. apply lamports_purge.
+Qed.
+Lemma tx_deny_access W t W' ms :
+  exec_tx W t = (W', true) -> pp_tx t PDenyAccess ms ->
+  exists c r, is_pp_config W (nthk ms 0) c /\ is_pp_request W (nthk ms 2) r /\
+    let rk := nthk ms 2 in let s := pc_sentinel c in
+    nthk ms 1 = s /\ In s (tx_signers t) /\ pc_paused c = false /\ s <> rk /\
+    get W' rk = empty_acct /\ lamports (get W' s) = lamports (get W s) + lamports (get W rk) /\
+    (forall k, k <> rk -> k <> s -> lamports (get W k) <> 0 -> get W' k = get W k).
+Proof.
+  intros H Hi. destruct (pp_tx_inv _ _ _ _ _ H Hi) as (_ & W1 & He & ->).
+  assert (Hex := exec_deny_access _ _ _ _ _ He). cbn zeta in *. rewrite !nthk_effective in Hex.
+  destruct Hex as (c & r & Hc & Hr & H1 & Hsig & Hp & Hn1 & Hz & Hs & Hfr & Hmeta).
+  exists c, r. split; [assumption|]. split; [assumption|]. split; [assumption|].
+  split; [eapply is_signer_effective; eassumption|]. split; [assumption|]. split; [assumption|].
+  split. { rewrite get_purge, Hz. reflexivity. } split. { rewrite lamports_purge. assumption. }
+  intros k Hk1 Hk2 Hnz. rewrite get_purge, (Hfr k Hk1 Hk2). destruct (lamports (get W k) =? 0) eqn:E; [keq; contradiction|reflexivity].
+Qed.
+(* C17/C18, transaction level: a successful RequestAccess transaction *)
+Lemma tx_request_access W t W' mode ms :
+  exec_tx W t = (W', true) -> pp_tx t (PRequestAccess mode) ms ->
+  let svc := access_mode_service mode in let rk := KPpRequest svc in let payer := nthk ms 1 in
+  exists c, is_pp_config W (nthk ms 0) c /\ nthk ms 2 = rk /\
+    pc_paused c = false /\ pc_request_paused c = false /\ pc_deposit c <> 0 /\ svc <> default_key /\
+    match mode with AMValidator _ => True | AMValidatorWithBackups _ b => b <> [] /\ N.of_nat (length b) <= pc_backup_limit c end /\
+    alen (get W rk) = 0 /\ owner (get W rk) = KSystem /\
+    let short := lam_request c - lamports (get W rk) in
+    (short <> 0 -> In payer (tx_signers t) /\ payer <> rk) /\
+    get W' rk = {| lamports := N.max (lamports (get W rk)) (lam_request c); owner := KPassport; alen := LEN_ACCESS_REQ;
+                   data := DAccessReq {| ar_service := svc; ar_beneficiary := payer; ar_fee := pc_fee c; ar_mode := mode |} |} /\
+    (payer <> rk -> lamports (get W' payer) = lamports (get W payer) - short /\ short <= lamports (get W payer)) /\
+    (forall k, k <> rk -> k <> payer -> lamports (get W k) <> 0 -> get W' k = get W k).
+Proof.
+  intros H Hi. destruct (pp_tx_inv _ _ _ _ _ H Hi) as (_ & W1 & He & ->). cbn zeta.
+  apply exec_data_passport in He. destruct He as (He & _). cbn [pp_process] in He.
+  assert (Hg := pp_request_access_guards _ _ _ _ He). assert (Hid := pp_request_access_identity _ _ _ _ He).
+  assert (Hok := pp_request_access_ok _ _ _ _ He).
+  apply pp_request_access_spec in He. cbn [pp_cx cx_metas] in *. cbn zeta in *. rewrite !nthk_effective in *.
+  destruct He as (c & Hc & Hle & Hsig & _ & Hpt). destruct Hg as (_ & c1 & (_ & Hd1) & Hp1 & Hp2 & Hdep & Hsvc & Hmode & _).
+  destruct Hid as (_ & H2 & _). destruct Hok as (m0 & m1 & m2 & rest & c2 & _ & _ & _ & _ & _ & _ & _ & _ & _ & _ & _ & _ & Ha & Ho & _).
+  destruct Hc as (Hco & Hcd). assert (c1 = c) by congruence. subst c1.
+  exists c. split; [split; assumption|]. repeat (split; [assumption|]).
+  remember (KPpRequest (access_mode_service mode)) as rk. remember (nthk ms 1) as payer.
+  split. { intros Hs. destruct (Hsig Hs) as (Hne & Hsg). split; [eapply is_signer_effective; eassumption|assumption]. }
+  split. { rewrite get_purge, Hpt, key_eqb_refl. cbn [lamports].
+           destruct (_ =? 0) eqn:E; [|reflexivity]. keq. exfalso. pose proof (sat_add_rent_pos (pc_deposit c) LEN_ACCESS_REQ). unfold lam_request in E. lia. }
+  split. { intros Hne. split; [|assumption]. rewrite lamports_purge, Hpt, (key_eqb_neq payer rk), key_eqb_refl by assumption. apply set_lamports_lam. }
+  intros k Hk1 Hk2 Hnz. rewrite get_purge, Hpt, !key_eqb_neq by assumption. destruct (lamports (get W k) =? 0) eqn:E; [keq; contradiction|reflexivity].
+Qed.
+
+(* ---- C17 life cycle: request, any number of reconfigurations, grant ---- *)
+Lemma tx_configure_frame W t W' s ms :
+  exec_tx W t = (W', true) -> pp_tx t (PConfigureProgram s) ms ->
+  forall k, k <> nthk ms 0 -> lamports (get W k) <> 0 -> get W' k = get W k.
+Proof.
+  intros H Hi k Hk Hnz. destruct (pp_tx_inv _ _ _ _ _ H Hi) as (_ & W1 & He & ->).
+  apply exec_data_passport in He. destruct He as (He & _). cbn [pp_process] in He.
+  apply pp_configure_program_frame in He. cbn [pp_cx cx_metas] in He. rewrite !nthk_effective in He.
+  destruct He as (c & c' & _ & _ & _ & Hfr & _). rewrite get_purge, (Hfr k Hk).
+  destruct (lamports (get W k) =? 0) eqn:E; [keq; contradiction|reflexivity].
+Qed.
+Inductive reconfigured : world -> world -> Prop :=
+| rc_refl W : reconfigured W W
+| rc_step W t W1 s ms W2 :
+    exec_tx W t = (W1, true) -> pp_tx t (PConfigureProgram s) ms -> reconfigured W1 W2 -> reconfigured W W2.
+Lemma reconfigured_keeps_pending W W' k r :
+  reconfigured W W' -> data (get W k) = DAccessReq r -> lamports (get W k) <> 0 -> get W' k = get W k.
+Proof.
+  induction 1 as [|W t W1 s ms W2 He Hi _ IH]; intros Hd Hnz; [reflexivity|].
+  assert (Hk : k <> nthk ms 0).
+  { intros ->. destruct (tx_configure_needs_admin _ _ _ _ _ He Hi) as (c & (_ & Hc) & _). congruence. }
+  pose proof (tx_configure_frame _ _ _ _ _ He Hi k Hk Hnz) as E. rewrite IH; rewrite E; auto.
+Qed.
+
+Lemma request_reconfigure_grant W0 tr W1 mode msr c0 W2 tg W3 msg :
+  exec_tx W0 tr = (W1, true) -> pp_tx tr (PRequestAccess mode) msr ->
+  is_pp_config W0 (nthk msr 0) c0 -> cfg_ok c0 -> pc_deposit c0 < two64 ->
+  reconfigured W1 W2 ->
+  exec_tx W2 tg = (W3, true) -> pp_tx tg PGrantAccess msg -> nthk msg 2 = KPpRequest (access_mode_service mode) ->
+  let rk := KPpRequest (access_mode_service mode) in let payer := nthk msr 1 in let bal := lamports (get W1 rk) in
+  exists c2, is_pp_config W2 (nthk msg 0) c2 /\
+    let s := pc_sentinel c2 in
+    lam_request c0 <= bal /\ pc_fee c0 < pc_deposit c0 /\ pc_deposit c0 <= bal /\ nthk msg 3 = payer /\ In s (tx_signers tg) /\
+    get W3 rk = empty_acct /\
+    (s <> payer -> lamports (get W3 s) = lamports (get W2 s) + pc_fee c0 /\
+                   lamports (get W3 payer) = lamports (get W2 payer) + (bal - pc_fee c0)) /\
+    (s = payer -> lamports (get W3 s) = lamports (get W2 s) + bal).
+Proof.
+  intros Hr Hir (_ & Hc0) Hok Hu Hrc Hg Hig H2. cbn zeta.
+  pose proof (tx_request_access _ _ _ _ _ Hr Hir) as Hreq. cbn zeta in Hreq.
+  destruct Hreq as (c & (_ & Hcd) & _ & _ & _ & Hdep & _ & _ & _ & _ & _ & Hget & _). assert (c = c0) by congruence. subst c.
+  destruct Hok as [Hz|Hlt]; [contradiction|]. destruct (lam_request_ge c0 Hu) as (Hge & _).
+  remember (KPpRequest (access_mode_service mode)) as rk.
+  assert (Hbal : lam_request c0 <= lamports (get W1 rk)) by (rewrite Hget; cbn [lamports]; lia).
+  assert (Hkeep : get W2 rk = get W1 rk).
+  { eapply reconfigured_keeps_pending; [eassumption|rewrite Hget; reflexivity|]. pose proof (sat_add_rent_pos (pc_deposit c0) LEN_ACCESS_REQ).
+    unfold lam_request in Hbal. lia. }
+  pose proof (tx_grant_access _ _ _ _ Hg Hig) as Hgr. cbn zeta in Hgr. rewrite H2 in Hgr.
+  destruct Hgr as (c2 & r & Hc2 & (_ & Hrd) & _ & H3 & Hsig & _ & _ & _ & _ & Hz' & Hne & Heq & _).
+  rewrite Hkeep in Hrd, Hne, Heq. rewrite Hget in Hrd. cbn [data] in Hrd. ok_inj Hrd. cbn [ar_fee ar_beneficiary] in *.
+  exists c2. split; [assumption|]. repeat (split; [first [assumption|lia]|]). assumption.
+Qed.
+
+(* ------------------------------------------------------------------------------------------------------------- *)
+(* 11. non-vacuity: concrete worlds built by running exec_op on literal histories                                  *)
+(* ------------------------------------------------------------------------------------------------------------- *)
+Definition run_ops (W : world) (ops : list op) : world * list bool :=
+  fold_left (fun '(W, rs) o => let '(W', b) := exec_op W o in (W', rs ++ [b])) ops (W, []).
+Definition tx1 (signers : list key) (ix : pp_ix) (ms : list meta) : tx :=
+  {| tx_signers := signers; tx_ixs := [{| i_prog := KPassport; i_data := IxPassport ix; i_metas := ms |}] |}.
+Lemma pp_tx_tx1 signers ix ms : pp_tx (tx1 signers ix ms) ix ms.
+Proof. reflexivity. Qed.
+
+Definition uA := KUser 1.  (* upgrade authority, then admin *)
+Definition uS := KUser 2.  (* sentinel *)
+Definition uP := KUser 3.  (* requester *)
+Definition svc1 := KUser 77.
+Definition rk1 := KPpRequest svc1.
+Definition att1 := {| at_validator := KUser 50; at_service := svc1; at_sig := 5 |}.
+Definition mode1 := AMValidatorWithBackups att1 [KUser 60; KUser 61].
+Definition pd_acct := {| lamports := 1141440; owner := KLoader; alen := 36; data := DProgData (Some uA) |}.
+Definition init_metas := [mk uA true true; mk KPpConfig false true; mk KSystem false false].
+Definition set_admin_metas := [mk (KProgData KPassport) false false; mk uA true false; mk KPpConfig false true].
+Definition conf_metas := [mk KPpConfig false true; mk uA true false].
+Definition request_metas (payer svc : key) := [mk KPpConfig false false; mk payer true true; mk (KPpRequest svc) false true; mk KSystem false false].
+Definition grant_metas (svc ben : key) := [mk KPpConfig false false; mk uS true true; mk (KPpRequest svc) false true; mk ben false true].
+Definition deny_metas (svc : key) := [mk KPpConfig false false; mk uS true true; mk (KPpRequest svc) false true].
+Definition t_init := tx1 [uA] PInitializeProgram init_metas.
+Definition t_set_admin := tx1 [uA] (PSetAdmin uA) set_admin_metas.
+Definition t_conf (s : pp_setting) := tx1 [uA] (PConfigureProgram s) conf_metas.
+Definition t_request := tx1 [uP] (PRequestAccess mode1) (request_metas uP svc1).
+Definition t_grant := tx1 [uS] PGrantAccess (grant_metas svc1 uP).
+Definition t_deny := tx1 [uS] PDenyAccess (deny_metas svc1).
+Definition funding : list op :=
+  [OAirdrop uA 1000000000000; OAirdrop uS 1000000000; OAirdrop uP 1000000000000; OForge (KProgData KPassport) pd_acct].
+Definition setup : list op :=
+  funding ++ [OTx t_init; OTx t_set_admin; OTx (t_conf (PSSentinel uS)); OTx (t_conf (PSAccessRequestDeposit 10000000 5000));
+              OTx (t_conf (PSBackupIdsLimit 2))].
+Definition W_funded : world := Eval vm_compute in fst (run_ops world0 funding).
+Definition W_inited : world := Eval vm_compute in fst (run_ops W_funded [OTx t_init]).
+Definition W_setup : world := Eval vm_compute in fst (run_ops world0 setup).
+Definition W_req : world := Eval vm_compute in fst (run_ops W_setup [OTx t_request]).
+Definition W_req_reconf : world := Eval vm_compute in fst (run_ops W_req [OTx (t_conf (PSAccessRequestDeposit 20 7))]).
+Definition W_paused : world := Eval vm_compute in fst (run_ops W_req [OTx (t_conf (PSFlag (PFIsPaused true)))]).
+Definition cfg_setup : pp_config :=
+  {| pc_paused := false; pc_request_paused := false; pc_admin := uA; pc_sentinel := uS;
+     pc_deposit := 10000000; pc_fee := 5000; pc_backup_limit := 2 |}.
+Definition top (ms : list meta) : ctx := pp_cx ms 1 None.
+
+(* the whole life cycle runs: initialise, set admin, configure x3, request, reconfigure deposit/fee, grant *)
+Example history_nonvacuous :
+  snd (run_ops world0 (setup ++ [OTx t_request; OTx (t_conf (PSAccessRequestDeposit 20 7)); OTx t_grant])) = repeat true 12.
+Proof. vm_compute. reflexivity. Qed.
+Example W_setup_config_nonvacuous : is_pp_config W_setup KPpConfig cfg_setup /\ cfg_ok cfg_setup /\ pc_deposit cfg_setup < two64.
+Proof. split; [split; reflexivity|]. split; [right|]; vm_compute; reflexivity. Qed.
+
+(* processor level: each success hypothesis is satisfiable *)
+Example pp_initialize_program_nonvacuous : is_ok (pp_initialize_program (top init_metas) W_funded) = true.
+Proof. vm_compute. reflexivity. Qed.
+Example pp_set_admin_nonvacuous : is_ok (pp_set_admin (top set_admin_metas) W_inited (KUser 9)) = true.
+Proof. vm_compute. reflexivity. Qed.
+Example pp_configure_program_nonvacuous :
+  is_ok (pp_configure_program (top conf_metas) W_setup (PSAccessRequestDeposit 20 7)) = true /\
+  is_ok (pp_configure_program (top conf_metas) W_setup (PSBackupIdsLimit 3)) = true /\
+  is_ok (pp_configure_program (top conf_metas) W_setup (PSAccessRequestDeposit 0 0)) = false /\
+  is_ok (pp_configure_program (top conf_metas) W_setup (PSAccessRequestDeposit 5 5)) = false /\
+  is_ok (pp_configure_program (top conf_metas) W_setup (PSBackupIdsLimit 0)) = false.
+Proof. vm_compute. repeat split. Qed.
+Example pp_request_access_nonvacuous : is_ok (pp_request_access (top (request_metas uP svc1)) W_setup mode1) = true.
+Proof. vm_compute. reflexivity. Qed.
+Example pp_grant_access_nonvacuous : is_ok (pp_grant_access (top (grant_metas svc1 uP)) W_req_reconf) = true.
+Proof. vm_compute. reflexivity. Qed.
+Example pp_deny_access_nonvacuous : is_ok (pp_deny_access (top (deny_metas svc1)) W_req) = true.
+Proof. vm_compute. reflexivity. Qed.
+(* sentinel = requester is allowed *)
+Example pp_grant_access_sentinel_is_beneficiary_nonvacuous :
+  let W := fst (run_ops W_setup [OTx (tx1 [uS] (PRequestAccess mode1) (request_metas uS svc1))]) in
+  exists W', pp_grant_access (top (grant_metas svc1 uS)) W = Ok W' /\
+             lamports (get W' uS) = lamports (get W uS) + lamports (get W rk1) /\ lamports (get W' rk1) = 0.
+Proof. vm_compute. eexists. split; [reflexivity|]. split; reflexivity. Qed.
+
+(* transaction level *)
+Example tx_request_access_nonvacuous : snd (exec_tx W_setup t_request) = true.
+Proof. vm_compute. reflexivity. Qed.
+Example tx_grant_access_nonvacuous : snd (exec_tx W_req_reconf t_grant) = true.
+Proof. vm_compute. reflexivity. Qed.
+Example tx_deny_access_nonvacuous : snd (exec_tx W_req t_deny) = true.
+Proof. vm_compute. reflexivity. Qed.
+(* the fee paid is the one remembered at request time (5000), not the reconfigured one (7); the requester gets everything else *)
+Example remembered_fee_nonvacuous :
+  let W' := fst (exec_tx W_req_reconf t_grant) in
+  lamports (get W' uS) = lamports (get W_req_reconf uS) + 5000 /\
+  lamports (get W' uP) = lamports (get W_req_reconf uP) + (lamports (get W_req_reconf rk1) - 5000) /\
+  lamports (get W_setup uP) = lamports (get W' uP) + 5000 /\
+  get W' rk1 = empty_acct.
+Proof. vm_compute. repeat split. Qed.
+(* hypotheses of the negative lemmas are satisfiable *)
+Example paused_nonvacuous :
+  (exists c, data (get W_paused KPpConfig) = DPpConfig c /\ pc_paused c = true) /\
+  snd (exec_tx W_paused t_grant) = false /\ snd (exec_tx W_paused t_deny) = false /\
+  snd (exec_tx W_paused (tx1 [uP] (PRequestAccess (AMValidator {| at_validator := KUser 50; at_service := KUser 78; at_sig := 1 |}))
+                           (request_metas uP (KUser 78)))) = false /\
+  snd (exec_tx W_paused (t_conf (PSFlag (PFIsPaused false)))) = true /\ snd (exec_tx W_paused t_set_admin) = true.
+Proof. split; [eexists; split; reflexivity|]. vm_compute. repeat split. Qed.
+Example one_pending_per_service_key_nonvacuous :
+  (exists r, is_pp_request W_req rk1 r) /\ snd (exec_tx W_req t_request) = false.
+Proof. split; [eexists; split; reflexivity|]. vm_compute. reflexivity. Qed.
+Example pp_reinit_fails_nonvacuous : (exists c, is_pp_config W_setup KPpConfig c) /\ snd (exec_tx W_setup t_init) = false.
+Proof. split; [eexists; split; reflexivity|]. vm_compute. reflexivity. Qed.
+Example unsigned_grant_nonvacuous :
+  snd (exec_tx W_req (tx1 [uP] PGrantAccess [mk KPpConfig false false; mk uS false true; mk rk1 false true; mk uP false true])) = false /\
+  snd (exec_tx W_req (tx1 [uP] PGrantAccess [mk KPpConfig false false; mk uP true true; mk rk1 false true; mk uP false true])) = false.
+Proof. vm_compute. split; reflexivity. Qed.
+Example request_via_cpi_nonvacuous :
+  let inner_ms := request_metas uP (KUser 78) in
+  let m := AMValidator {| at_validator := KUser 50; at_service := KUser 78; at_sig := 1 |} in
+  snd (exec_tx W_setup (tx1 [uP] (PRequestAccess m) inner_ms)) = true /\
+  snd (exec_tx W_setup {| tx_signers := [uP]; tx_ixs := [{| i_prog := KRogue 0; i_data := IxRogueCpi (IxPassport (PRequestAccess m));
+                                                            i_metas := mk KPassport false false :: inner_ms |}] |}) = false.
+Proof. vm_compute. split; reflexivity. Qed.
+
+(* ---- what is NOT true at processor level, and how the transaction level repairs it ---- *)
+(* the processor alone (no runtime balance check) mints lamports when a forged request remembers a fee above its balance:
+   the hypothesis `ar_fee r <= balance` of pp_grant_access_conserves cannot be dropped ... *)
+Definition forged_req : acct :=
+  {| lamports := 10; owner := KPassport; alen := LEN_ACCESS_REQ;
+     data := DAccessReq {| ar_service := KUser 88; ar_beneficiary := uP; ar_fee := 100; ar_mode := AMValidator att1 |} |}.
+Definition W_forged : world := Eval vm_compute in fst (run_ops W_setup [OForge (KPpRequest (KUser 88)) forged_req]).
+Example pp_grant_access_conservation_without_fee_le_balance_refuted :
+  exists W', pp_grant_access (top (grant_metas (KUser 88) uP)) W_forged = Ok W' /\
+    total W' [KPpRequest (KUser 88); uS; uP] = total W_forged [KPpRequest (KUser 88); uS; uP] + 90.
+Proof. vm_compute. eexists. split; reflexivity. Qed.
+(* ... but the instruction frame (runtime balance check) rejects it, and rejects a second grant of the same request inside
+   one transaction (balance 0 < remembered fee) *)
+Example forged_fee_rejected_by_runtime : snd (exec_tx W_forged (tx1 [uS] PGrantAccess (grant_metas (KUser 88) uP))) = false.
+Proof. vm_compute. reflexivity. Qed.
+Example double_grant_rejected_by_runtime :
+  snd (exec_tx W_req {| tx_signers := [uS];
+                        tx_ixs := [{| i_prog := KPassport; i_data := IxPassport PGrantAccess; i_metas := grant_metas svc1 uP |};
+                                   {| i_prog := KPassport; i_data := IxPassport PGrantAccess; i_metas := grant_metas svc1 uP |}] |}) = false.
+Proof. vm_compute. reflexivity. Qed.
+(* a request whose payer account was the (pre-funded) request address itself remembers that address as beneficiary; it can
+   never be granted (the refund would alias the request account), only denied *)
+Example self_beneficiary_request_only_deniable :
+  let W := fst (run_ops W_setup [OAirdrop rk1 50000000; OTx (tx1 [uP] (PRequestAccess mode1)
+                                   [mk KPpConfig false false; mk rk1 false true; mk rk1 false true; mk KSystem false false])]) in
+  (exists r, is_pp_request W rk1 r /\ ar_beneficiary r = rk1) /\
+  snd (exec_tx W (tx1 [uS] PGrantAccess (grant_metas svc1 rk1))) = false /\
+  snd (exec_tx W t_deny) = true.
+Proof. vm_compute. split; [eexists; split; [split|]; reflexivity|]. split; reflexivity. Qed.
+
+Example request_reconfigure_grant_nonvacuous :
+  exec_tx W_setup t_request = (W_req, true) /\ pp_tx t_request (PRequestAccess mode1) (request_metas uP svc1) /\
+  is_pp_config W_setup (nthk (request_metas uP svc1) 0) cfg_setup /\ reconfigured W_req W_req_reconf /\
+  snd (exec_tx W_req_reconf t_grant) = true /\ pp_tx t_grant PGrantAccess (grant_metas svc1 uP) /\
+  nthk (grant_metas svc1 uP) 2 = KPpRequest (access_mode_service mode1).
+Proof.
+  split; [vm_compute; reflexivity|]. split; [reflexivity|]. split; [split; reflexivity|]. split.
+  - eapply rc_step with (t := t_conf (PSAccessRequestDeposit 20 7)); [vm_compute; reflexivity|reflexivity|apply rc_refl].
+  - split; [vm_compute; reflexivity|]. split; reflexivity.
+Qed.
